@@ -4,7 +4,7 @@ CONSTANTS
   MaxMsg = 2
   Topics = {"t1", "t2"}
   Users = {"u1", "u2"}
-  MaxGc = 2
+  MaxGc = 99
   Grace = 1
   Methods = {"GET", "POST"}
   Keys = {"valid", "missing"}
@@ -12,12 +12,12 @@ CONSTANTS
   Places = {"header"}
   Sizes = {"small"}
   Kinds = {"html"}
-  Faults = {"none", "start", "finish"}
+  Faults = {"none"}
   Shapes = {"canon", "dot_out"}
   Limits = {1, 100}
   NewaccVals = {TRUE, FALSE}
   AsattVals = {FALSE}
-  AllowSlow = TRUE
+  AllowSlow = FALSE
   DEV_NewaccNoAuth = FALSE
   DEV_ServeUnfinished = FALSE
   DEV_FinishFailLeavesBytes = FALSE
